@@ -17,6 +17,11 @@ CHECKS = {
         "note": TRUST + " BTreeMap is assumed to behave as a sorted unique map.",
         "design": "DESIGN.md section 5 C06",
     },
+    "C10": {
+        "text": "Codec theorems in Coq over a byte-level model written from the documented layout: little-endian round trips, CRC-32C chaining and table=bitwise definition (finite check lifted), parse.serialize round trip for v1 and v2/v3 record heads (whole extent and head block), value offset, token range/non-zero/idempotent self-verifying stamp, retirement-marker round trip and marker/record/zero disjointness. Tie on every run: (i) every pure format function vs the Coq codec through hook H3, (ii) whole files after flush() decoded by the model as an independent reader must equal the live contents with clear journal and exact counters, (iii) a golden corpus of v1/v2/v3 files from the pinned release must be decoded by the model to their manifests, be read back by the working tree, and keep their format when written to.",
+        "note": TRUST + " Not proved: the whole-file bridge (decode of an encoded abstract disk) -- it is checked by execution (ii, iii).",
+        "design": "DESIGN.md section 5 C10",
+    },
     "C17": {
         "text": "Totality/no-panic/termination of a byte-level model of open+recovery proved in Coq for every image and configuration (fuel never exhausted, every scan step strictly advances, parse_record never slices out of range), plus: rejected-for-size-or-metadata leaves the image untouched, unrecognised files are rejected unmodified. The model is tied to the code on every run: thousands of mutated/forged images are opened by the real code (child process, watchdog) and by the extracted model and must agree on outcome, error kind, contents, values, free-space stats and the file bytes after the open; an implementation-side oracle flags panics, hangs, aborts and modification on rejection directly.",
         "note": TRUST + " 'A store that opens answers every call' is observed by a probe workload, not proved.",
